@@ -188,9 +188,36 @@ def run(ctx: Ctx) -> RuleResult:
     lit = lits[0] if lits else None
     ok = False
     why = 'no literal written'
-    if lit is not None and isinstance(lit.args[0], ast.Name):
-        v = lit.args[0].id
-        defs = [a for a in ast.walk(wl) if isinstance(a, ast.Assign) and len(a.targets) == 1 and norm(a.targets[0]) == v]
+    region = wl            # where the literal is computed: the loop, or a helper function the loop delegates to
+    r4_sym = wsym
+    if lit is not None:
+        srcs = [lit.args[0]]
+        if isinstance(lit.args[0], ast.Name):
+            ds_ = [a for a in ast.walk(wl) if isinstance(a, ast.Assign) and len(a.targets) == 1 and norm(a.targets[0]) == lit.args[0].id]
+            if len(ds_) == 1:
+                srcs = [ds_[0].value]
+        if len(srcs) == 1 and isinstance(srcs[0], ast.Call) and isinstance(srcs[0].func, (ast.Name, ast.Attribute)):
+            hname = srcs[0].func.id if isinstance(srcs[0].func, ast.Name) else srcs[0].func.attr
+            hs = [h for h in repo.functions.values() if h.module is wt.module and h.name == hname and h is not wt]
+            if len(hs) == 1 and any(norm(a_) == wsym for a_ in srcs[0].args):
+                hp = hs[0].positional_names()
+                off = 0 if isinstance(srcs[0].func, ast.Name) else 0
+                r4_sym = hp[[norm(a_) for a_ in srcs[0].args].index(wsym) + off]
+                region = hs[0].node
+    if lit is not None:
+        wsym_, wsym = wsym, r4_sym
+        v = lit.args[0].id if isinstance(lit.args[0], ast.Name) and region is wl else '<return>'
+        if region is wl:
+            defs = [a for a in ast.walk(wl) if isinstance(a, ast.Assign) and len(a.targets) == 1 and norm(a.targets[0]) == v]
+        else:
+            # the helper's returns play the part of the assignments
+            defs = [ast.copy_location(ast.Assign(targets=[ast.Name(id='<return>', ctx=ast.Store())], value=r_.value), r_) for r_ in ast.walk(region)
+                    if isinstance(r_, ast.Return) and r_.value is not None]
+            for d_, r_ in zip(defs, [r_ for r_ in ast.walk(region) if isinstance(r_, ast.Return) and r_.value is not None]):
+                d_._parent = getattr(r_, '_parent', None)
+                d_._ret = r_
+        wl_ = wl
+        wl = region
         subs = [a for a in defs if 'term_subs[%s.name](%s)' % (wsym, wsym) in norm(a.value)]
         wloc = {a.targets[0].id: norm(a.value) for a in ast.walk(wl) if isinstance(a, ast.Assign) and len(a.targets) == 1 and isinstance(a.targets[0], ast.Name)}
 
@@ -202,13 +229,16 @@ def run(ctx: Ctx) -> RuleResult:
         ok = len(defs) == 2 and len(subs) == 1 and len(pats) == 1
         why = 'the literal is %s' % [norm(a.value) for a in defs]
         if ok:
-            in_handler = any(isinstance(a, ast.ExceptHandler) and a.type is not None and 'KeyError' in norm(a.type) for a in ancestors(pats[0]))
+            anchor_ = getattr(pats[0], '_ret', pats[0])
+            in_handler = any(isinstance(a, ast.ExceptHandler) and a.type is not None and 'KeyError' in norm(a.type) for a in ancestors(anchor_))
             tdef = norm(pats[0].value)[:-len('.pattern.value')]
             tdef_full = full(pats[0].value)[:-len('.pattern.value')]
             guards = [r for r in ast.walk(wl) if isinstance(r, ast.Raise) and 'NotImplementedError' in norm(r)]
             ok = in_handler and len(guards) == 1 and (runs_only_if(guards[0], _pe('not isinstance(%s.pattern, PatternStr)' % tdef)) or runs_only_if(guards[0], _pe('not isinstance(%s.pattern, PatternStr)' % tdef_full))) \
-                and guards[0].lineno < pats[0].lineno
+                and guards[0].lineno < getattr(pats[0], '_ret', pats[0]).lineno
             why = 'pattern value used as fallback of term_subs=%s, refused unless the pattern is a string=%s' % (in_handler, len(guards) == 1)
+    if lit is not None:
+        wl, wsym = wl_, wsym_
     res.ob('%s %s' % (wt.loc(), wt.qual), 'r4: a discarded terminal is written as term_subs[name](sym), else as the value of its string pattern (regexps refused)', ok)
     if not ok:
         res.finding(wt, lit if lit is not None else wt.node, 'the text written for a discarded terminal changed (%s)' % why, construct='r4:literal')
@@ -221,10 +251,18 @@ def run(ctx: Ctx) -> RuleResult:
     g0 = nts[0].value.generators[0]
     s0 = norm(g0.target)
     e1 = [a for a in br.body_nodes() if isinstance(a, ast.Assign) and isinstance(a.value, ast.SetComp) and any('.options.expand1' in norm(i_) for i_ in a.value.generators[0].ifs)]
-    al = [a for a in br.body_nodes() if isinstance(a, ast.Assign) and isinstance(a.value, ast.Call) and norm(a.value.func) == 'defaultdict']
-    if len(e1) != 1 or len(al) != 1:
+    # the alias table: what gets `<r>.alias` appended under `<r>.origin` (a defaultdict, or a dict through setdefault)
+    al_names = set()
+    for c in br.body_nodes():
+        if isinstance(c, ast.Call) and isinstance(c.func, ast.Attribute) and c.func.attr == 'append' and c.args and norm(c.args[0]).endswith('.alias'):
+            recv = c.func.value
+            if isinstance(recv, ast.Subscript) and norm(recv.slice).endswith('.origin'):
+                al_names.add(norm(recv.value))
+            elif isinstance(recv, ast.Call) and isinstance(recv.func, ast.Attribute) and recv.func.attr == 'setdefault' and recv.args and norm(recv.args[0]).endswith('.origin'):
+                al_names.add(norm(recv.func.value))
+    if len(e1) != 1 or len(al_names) != 1:
         raise AnalysisError('R-RECONS-PROTOCOL: _build_recons_rules: cannot find the expand1 set / the alias table')
-    E1, AL = norm(e1[0].targets[0]), norm(al[0].targets[0])
+    E1, AL = norm(e1[0].targets[0]), next(iter(al_names))
     want = "%s.name.startswith('_') or %s in %s or %s in %s" % (s0, s0, E1, s0, AL)
     ok = bool_relation(g0.ifs[0], _pe(want)) == 'same'
     res.ob('%s %s' % (br.loc(nts[0]), br.qual), 'r5: symbols stay non-terminals in matching rules iff their rule is inlined, expand1 or aliased', ok)
@@ -239,9 +277,11 @@ def run(ctx: Ctx) -> RuleResult:
     if not ok:
         res.finding(br, comp, 'the element of the filtered expansion is %s, expected `%s if %s in %s else Terminal(%s.name)`' % (norm(elt), sv, sv, ntv, sv),
                     construct='r5:element')
-    ys = [y for y in br.body_nodes() if isinstance(y, ast.Yield) and isinstance(y.value, ast.Name)]
     rulev = next((k for k, v in loc_.items() if v is mk[0]), None)
-    yr = [y for y in ys if norm(y.value) == rulev]
+    returned = {norm(r.value) for r in br.body_nodes() if isinstance(r, ast.Return) and r.value is not None}
+    yr = [y for y in br.body_nodes() if isinstance(y, ast.Yield) and isinstance(y.value, ast.Name) and norm(y.value) == rulev] + \
+         [c for c in br.body_nodes() if isinstance(c, ast.Call) and isinstance(c.func, ast.Attribute) and c.func.attr == 'append' and c.args
+          and norm(c.args[0]) == rulev and norm(c.func.value) in returned]
     ok = False
     why = 'the matching rule is never yielded'
     if len(yr) == 1 and rulev is not None:
@@ -255,6 +295,44 @@ def run(ctx: Ctx) -> RuleResult:
     res.ob('%s %s' % (br.loc(), br.qual), 'r5: a rule is itself a matching rule iff it is inlined or expand1 (and then not a multi-symbol expand1 alternative)', ok)
     if not ok:
         res.finding(br, yr[0] if yr else br.node, 'routing of the matching rules changed (%s)' % why, construct='r5:routing')
+    # ---- r7: the rule set a root is matched with ------------------------------------------------------------------------------------------------
+    mt = repo.func(TM + 'TreeMatcher.match_tree')
+    msn = mt.self_name() or 'self'
+    km = repo.cls(TM + 'TreeMatcher')
+    # the shared list self.rules is never changed after construction (a root's own rules must not leak into it)
+    bad_mut = []
+    for m_ in km.methods.values():
+        if m_.name == '__init__':
+            continue
+        sn_ = m_.self_name() or 'self'
+        aliases_ = {a.targets[0].id for a in m_.body_nodes() if isinstance(a, ast.Assign) and len(a.targets) == 1 and isinstance(a.targets[0], ast.Name)
+                    and norm(a.value) == '%s.rules' % sn_}
+        targets_ = {'%s.rules' % sn_} | aliases_
+        for x in m_.body_nodes():
+            if isinstance(x, ast.AugAssign) and norm(x.target) in targets_:
+                bad_mut.append((m_, x))
+            if isinstance(x, ast.Call) and isinstance(x.func, ast.Attribute) and x.func.attr in ('append', 'extend', 'insert', 'sort', 'reverse', 'remove', 'pop', 'clear') \
+                    and norm(x.func.value) in targets_:
+                bad_mut.append((m_, x))
+    ok = not bad_mut
+    res.ob('%s %s' % (km.module.loc(km.node), km.qual), 'r7: the shared rule list self.rules is not changed after construction', ok)
+    if not ok:
+        m_, x = bad_mut[0]
+        res.finding(m_, x, 'the shared list of matching rules is changed in place (%s): the rules of one root stay in it, and a later node of another kind is '
+                    'matched -- regrouped -- with them' % norm(x)[:80], construct='r7:shared-rules')
+    cat = [b_ for b_ in mt.body_nodes() if isinstance(b_, ast.BinOp) and isinstance(b_.op, ast.Add) and norm(b_.left) == '%s.rules' % msn]
+    if len({norm(b_) for b_ in cat}) == 1:
+        cat = cat[:1]
+    if len(cat) != 1:
+        if not bad_mut:
+            raise AnalysisError('R-RECONS-PROTOCOL: match_tree: cannot find `self.rules + <rules of the root>`')
+    else:
+        right = cat[0].right
+        ok = isinstance(right, ast.Call) and norm(right.func) == '_best_rules_from_group' and len(right.args) == 1 and norm(right.args[0]).startswith('%s.rules_for_root[' % msn)
+        res.ob('%s %s' % (mt.loc(cat[0]), mt.qual), 'r7: a root is matched with the shared rules plus the best of its own rules (one per distinct matching rule)', ok)
+        if not ok:
+            res.finding(mt, cat[0], 'the rules of the root are added as %s, expected _best_rules_from_group(self.rules_for_root[...]): alternatives that differ '
+                        'only in filtered literals give the same matching rule twice' % norm(right)[:80], construct='r7:root-rules')
     # ---- r6: output order -----------------------------------------------------------------------------------------------------------------------
     rr = repo.func(RC + 'Reconstructor._reconstruct')
     lp = [l for l in rr.node.body if isinstance(l, ast.For)]
